@@ -866,7 +866,7 @@ class state_machine_base : public FrontEnd
         using completion_event = typename Transition::transition_event;
         completion_event event{};
         m_event_processing = true;
-        process_result result;
+        process_result result = process_result::HANDLED_FALSE;
 #ifndef BOOST_NO_EXCEPTIONS
         if constexpr (has_no_exception_thrown<front_end_t>::value)
         {
